@@ -57,6 +57,7 @@ func runC19(c *Check, a *Analysis) {
 	p := c.P
 	sc := siteCounter{}
 	rulePendingKeys(c, a, "R-PENDING-KEYS")
+	ruleMarkDeadExact(c, a, "R-MARK-DEAD-EXACT")
 	fn := p.Fn("(*Conn).CallWithContext")
 	c.Rule("R-CTX-SELECT", "Conn.CallWithContext waits only in a select over call.Done and ctx.Done(); the cancel arm returns ctx.Err() and neither completes, recycles nor unregisters anything; PutCall is on the completion arm only", 4)
 	if fn == nil {
@@ -107,7 +108,9 @@ func runC19(c *Check, a *Analysis) {
 						}
 					}
 					for _, r := range relSites {
-						if r.Instr == x && r.Kind.Name == resCall.Name {
+						// the call object, or anything it still owns (its flag object): the call
+						// stays registered and the reader will use both when the late response arrives
+						if r.Instr == x && (r.Kind.Name == resCall.Name || r.Kind.Name == resUpgrade.Name) {
 							return true
 						}
 					}
@@ -292,6 +295,7 @@ func runC20(c *Check, a *Analysis) {
 	ruleSchedNil(c, a, "R-SCHED-NIL")
 	rulePollEOF(c, a, "R-POLL-EOF")
 	ruleWGDiscipline(c, a, "R-WG-DISCIPLINE")
+	ruleAcceptExit(c, a, "R-EXIT-EDGE")
 	ruleLock(c, a, "R-LOCK", "Conn", "closing")
 	ls := a.Locks()
 	sc := siteCounter{}
@@ -709,6 +713,7 @@ func runC12(c *Check, a *Analysis) {
 	sc := siteCounter{}
 	ruleHeaderFresh(c, a, "R-HEADER-FRESH")
 	ruleCodeThresholds(c, a, "R-CODE-THRESHOLD")
+	ruleResolveTotal(c, a, "R-RESOLVE-TOTAL")
 	c.Rule("R-RESOLVE-AGREE", "DialWithOptions and ListenWithOptions resolve socket / body codec / header encoder identically: registry looked up by the Options name field first, the constructor field used only when the registry has no entry; results feed NewClientCodec / NewServerCodec in positions 0 and 1", 8)
 	type res struct {
 		registry, nameField, ctorField   string
